@@ -46,6 +46,9 @@ func NewValuesByString(m []meta.Leafable, objs ...string) ([]val.Value, error) {
 
 func NewValues(m []meta.Leafable, objs ...interface{}) ([]val.Value, error) {
 	var err error
+	if len(objs) > len(m) {
+		return nil, fmt.Errorf("%w. %d value(s) given for %d leaf(s)", fc.BadRequestError, len(objs), len(m))
+	}
 	vals := make([]val.Value, len(m))
 	for i, obj := range objs {
 		vals[i], err = NewValue(m[i].Type(), obj)
